@@ -64,16 +64,72 @@ class StmtMixin:
     def _fingerprint(self, st):
         frames = tuple(sorted((fid, tuple(sorted((n, self._fp_value(x)) for n, x in f.vars.items())), tuple(sorted(f.globals_decl)))
                               for fid, f in st.frames.items()))
-        heap = tuple(sorted((k, tuple(a.get_id() for a in arrs)) for k, arrs in st.heap.items()))
-        ghost = tuple(sorted((k, t.get_id()) for k, t in st.ghost.items()))
-        globs = tuple(sorted((k, self._fp_value(v)) for k, v in st.globs.items()))
+        # heap components, ghosts and scalar globals may differ: they are joined with if-then-else on the path conditions
+        heap = ()
+        ghost = ()
+        globs = tuple(sorted((k, self._fp_value(v)) for k, v in st.globs.items()
+                             if not isinstance(v, (VInt, VBool, VReal, VStr, VRef, VObj))))
         objs = tuple(sorted((k, o.kind, tuple(self._fp_value(x) for x in (o.data if o.kind != "dict" else o.data.values())),
                              tuple(o.data) if o.kind == "dict" else ()) for k, o in st.objs.items()))
         log = tuple((e.tag, tuple(self._fp_value(a) if isinstance(a, V) else ("raw", str(a)) for a in e.args)) for e in st.log)
-        return (st.cur, frames, heap, ghost, globs, objs, log, tuple(h.get_id() for h in st.held), st.alloc.get_id(),
+        return (st.cur, frames, heap, ghost, globs, objs, log, tuple(h.get_id() for h in st.held), 0,
                 self._fp_value(st.cur_exc) if st.cur_exc is not None else None,
                 tuple(self._fp_value(x) for x in st.gen_out) if st.gen_out is not None else None,
                 tuple(sorted(st.log_opaque)))
+
+    def _join_components(self, base, states, conds):
+        """base := join of the states: every heap component / ghost / scalar global that differs becomes
+        If(cond_1, v_1, If(cond_2, v_2, ... v_n))."""
+        from .state import initial_array
+        keys = set()
+        for s_ in states:
+            keys |= set(s_.heap)
+        for k in keys:
+            vals = []
+            for s_ in states:
+                arrs = s_.heap.get(k)
+                vals.append(arrs)
+            ref = next(v for v in vals if v is not None)
+            vals = [v if v is not None else tuple(initial_array(k[0], k[1], i_, a_.sort().range()) for i_, a_ in enumerate(ref)) for v in vals]
+            if all(all(x.eq(y) for x, y in zip(v, vals[0])) for v in vals):
+                base.heap[k] = vals[0]
+                continue
+            out = list(vals[-1])
+            for c_, v in zip(reversed(conds[:-1]), reversed(vals[:-1])):
+                out = [z3.If(c_, a, b) for a, b in zip(v, out)]
+            base.heap[k] = tuple(out)
+        gkeys = set()
+        for s_ in states:
+            gkeys |= set(s_.ghost)
+        for k in gkeys:
+            vals = [s_.ghost.get(k) if k in s_.ghost else z3.Const(f"G0!{k}", self.schema.ghosts[k].sort) for s_ in states]
+            if all(v.eq(vals[0]) for v in vals):
+                base.ghost[k] = vals[0]
+                continue
+            out = vals[-1]
+            for c_, v in zip(reversed(conds[:-1]), reversed(vals[:-1])):
+                out = z3.If(c_, v, out)
+            base.ghost[k] = out
+        gl = set()
+        for s_ in states:
+            gl |= set(s_.globs)
+        for k in gl:
+            vals = [s_.globs.get(k) for s_ in states]
+            if any(v is None for v in vals):
+                if all(v is None or v is next(x for x in vals if x is not None) for v in vals):
+                    continue
+                raise EngineError("global touched on one side only")
+            if all(self._fp_value(v) == self._fp_value(vals[0]) for v in vals):
+                continue
+            out = vals[-1]
+            for c_, v in zip(reversed(conds[:-1]), reversed(vals[:-1])):
+                out = self.merge(c_, v, out)
+            base.globs[k] = out
+        # allocation counter: the largest
+        al = states[-1].alloc
+        for c_, s_ in zip(reversed(conds[:-1]), reversed(states[:-1])):
+            al = al if s_.alloc.eq(al) else z3.If(c_, s_.alloc, al)
+        base.alloc = al
 
     def merge_equal_states(self, outs):
         nexts = [o for o in outs if o[0] == "next"]
@@ -104,6 +160,11 @@ class StmtMixin:
             while all(len(p) > n for p in pcs) and all(p[n].eq(pcs[0][n]) for p in pcs):
                 n += 1
             rests = [z3.And(p[n:]) if len(p) > n else z3.BoolVal(True) for p in pcs]
+            try:
+                self._join_components(base, [o[1] for o in g], rests)
+            except EngineError:
+                merged.extend(g)
+                continue
             base.pc = list(pcs[0][:n]) + [z3.Or(rests)]
             seenq = {id(q) for q in base.qhyps}
             for o in g[1:]:
@@ -901,6 +962,13 @@ class StmtMixin:
                 out.append(cur.arg(1))
                 cur = cur.arg(0)
                 continue
+            if z3.is_app(cur) and cur.decl().kind() == z3.Z3_OP_ITE:
+                # a join of two paths: the union of what either side stored
+                a = self._store_addrs(cur.arg(1), base)
+                b = self._store_addrs(cur.arg(2), base)
+                if a is None or b is None:
+                    return None
+                return out + a + b
             return None
         return None
 
